@@ -334,7 +334,9 @@ def check_request(W, rec, attrs, env, hostile_vars, body=None, limits=None):
     case = {"environ": hostile_vars, "body": body, "limits": limits}
     r = W.Request(env)
     if limits:
-        r.max_form_memory_size, r.max_form_parts = limits
+        r.max_form_memory_size, r.max_form_parts = limits[:2]
+        if len(limits) > 2:
+            r.max_content_length = limits[2]  # configuration the application sets (Flask's MAX_CONTENT_LENGTH)
     ok = True
     nt = any(is_nt(str(v)) for v in hostile_vars.values())
     for a in attrs:
@@ -663,7 +665,9 @@ def run(shard, rec, rng):
     for i in range(cfg["bodies"]):
         body = b"".join(rng.choice(BODY_PIECES) for _ in range(rng.randint(0, 14)))
         env, hv = make_environ(W, rng, body=body, ct=rng.choice(BODY_CT))
-        limits = (rng.choice([5, 50]), rng.choice([1, 3])) if rng.random() < 0.3 else None
+        limits = (rng.choice([5, 50, None]), rng.choice([1, 3, None]), rng.choice([None, 0, 10, 10**6])) if rng.random() < 0.45 else None
+        if rng.random() < 0.2:
+            env["HTTP_TRANSFER_ENCODING"] = hv["HTTP_TRANSFER_ENCODING"] = rng.choice(["chunked", "gzip, chunked", "identity"])
         rec.observe("hostile_bodies")
         check_request(W, rec, ["form", "files", "data", "values", "stream", "json", "content_length", "mimetype_params", "is_json"], env, hv, body=body, limits=limits)
     reach.finish()
